@@ -38,6 +38,8 @@ pub struct Spec {
     pub max_depth: u32,
     pub max_entries: u32,
     pub bad_clusters: u32,
+    /// all but a few of the clusters left free by the generated tree are marked bad
+    pub nearly_full: bool,
     /// hint written to FS-info (None = derived: first free / unknown)
     pub hint: Option<u32>,
 }
@@ -50,7 +52,7 @@ impl Spec {
             self.bps,
             self.spc,
             self.nfats,
-            if self.mirroring { "m".to_string() } else { format!("a{}", self.active_fat) },
+            if self.mirroring { if self.active_fat == 0 { "m".to_string() } else { format!("m(stale{})", self.active_fat) } } else { format!("a{}", self.active_fat) },
             self.reserved,
             self.root_entries,
             self.clusters,
@@ -85,13 +87,15 @@ impl Spec {
             spc,
             nfats,
             mirroring,
-            active_fat: if mirroring { 0 } else { rng.below(u64::from(nfats)) as u32 },
+            // with mirroring on the "active FAT" nibble of the extended flags means nothing; it may hold a stale number
+            active_fat: if mirroring { if fat == 32 && rng.chance(1, 3) { rng.below(16) as u32 } else { 0 } } else { rng.below(u64::from(nfats)) as u32 },
             reserved,
             root_entries: if fat == 32 { 0 } else { *rng.pick(&[16u32, 32, 64, 224, 512]) * (bps / 512) + if rng.chance(1, 6) { *rng.pick(&[1u32, 4, 8, 100]) } else { 0 } },
             clusters,
             slack_sectors: if spc > 1 { rng.below(u64::from(spc)) as u32 } else { 0 },
             extra_fat_sectors: rng.below(3) as u32,
-            root_cluster: if fat == 32 { *rng.pick(&[2u32, 2, 3, 17]) } else { 0 },
+            // (sometimes in the very last or last-but-one cluster of the volume)
+            root_cluster: if fat == 32 { *rng.pick(&[2u32, 2, 3, 17, clusters + 1, clusters]) } else { 0 },
             fsinfo_sector,
             backup_sector: if backup_sector == fsinfo_sector { 0 } else { backup_sector },
             status_byte: *rng.pick(&[0u8, 0, 0, 1, 2, 3]),
@@ -107,6 +111,7 @@ impl Spec {
             max_depth: 1 + rng.below(3) as u32,
             max_entries: 2 + rng.below(7) as u32,
             bad_clusters: rng.below(3) as u32,
+            nearly_full: rng.chance(1, 6),
             hint: None,
         }
     }
@@ -599,7 +604,16 @@ pub fn build(spec: &Spec, rng: &mut Rng) -> Result<(Image, Truth), String> {
         return Err("volume too small for the generated tree".into());
     }
     // ---- FAT tables
-    let B { rng, mut img, free, mut fat, .. } = b;
+    let B { rng, mut img, mut free, mut fat, .. } = b;
+    if s.nearly_full {
+        // everything else is unusable (bad clusters): a few allocations take such a volume to full
+        let keep = 3 + rng.usize_below(24);
+        while free.len() > keep {
+            let i = rng.usize_below(free.len());
+            let c = free.remove(i);
+            fat[c as usize] = bad_mark;
+        }
+    }
     let f0: u32 = match s.fat {
         12 => 0xF00 | u32::from(s.media),
         16 => 0xFF00 | u32::from(s.media),
@@ -687,7 +701,7 @@ pub fn build(spec: &Spec, rng: &mut Rng) -> Result<(Image, Truth), String> {
     bs[28..32].copy_from_slice(&rng.next_u32().to_le_bytes()); // hidden sectors: irrelevant to the driver
     let o = if s.fat == 32 {
         bs[36..40].copy_from_slice(&(spf as u32).to_le_bytes());
-        let flags: u16 = if s.mirroring { 0 } else { 0x80 | s.active_fat as u16 };
+        let flags: u16 = if s.mirroring { s.active_fat as u16 & 0x0F } else { 0x80 | s.active_fat as u16 };
         bs[40..42].copy_from_slice(&flags.to_le_bytes());
         bs[44..48].copy_from_slice(&s.root_cluster.to_le_bytes());
         bs[48..50].copy_from_slice(&(s.fsinfo_sector as u16).to_le_bytes());
